@@ -160,6 +160,7 @@ type failingRW struct {
 	hdr    http.Header
 	writes int
 	cut    int
+	once   bool // only write number cut+1 is refused
 }
 
 func (w *failingRW) Header() http.Header { return w.hdr }
@@ -167,7 +168,7 @@ func (w *failingRW) WriteHeader(int)     {}
 func (w *failingRW) Flush()              {}
 func (w *failingRW) Write(p []byte) (int, error) {
 	w.writes++
-	if w.writes > w.cut {
+	if (w.once && w.writes == w.cut+1) || (!w.once && w.writes > w.cut) {
 		return 0, errInjected
 	}
 	return len(p), nil
@@ -223,7 +224,7 @@ func runSendSideHandler(s *sendScenario, rec *Rec) {
 	req := httptest.NewRequest(http.MethodPost, "http://verif.test/verif.v1.Svc/Method", bytes.NewReader(body))
 	req.ProtoMajor, req.ProtoMinor = 2, 0
 	req.Header.Set("Content-Type", contentType(s.Proto, false, "proto"))
-	rw := &failingRW{hdr: http.Header{}, cut: s.Cut}
+	rw := &failingRW{hdr: http.Header{}, cut: s.Cut, once: s.Fault == "werr1"}
 	finished := make(chan struct{})
 	go func() {
 		defer close(finished)
